@@ -86,6 +86,7 @@ let handle (cmd : string) (rest : string) : string =
         | 'C' :: r -> AConn false :: conv r
         | 'P' :: r -> APerm false :: conv r
         | 'S' :: _ -> [ APerm true ]
+        | 'W' :: _ -> [ APerm true ]
         | 'Z' :: _ -> [ ATemp true ]
         | 'L' :: _ -> [ AConn true ]
         | _ -> failwith "token" in
